@@ -68,3 +68,10 @@ pub proof fn lemma_str_bytes_inj(a: Seq<char>, b: Seq<char>)
     vstd::utf8::encode_utf8_decode_utf8(b);
 }
 
+
+pub assume_specification [String::len] (s: &String) -> (r: usize)
+    ensures r == str_bytes(s@).len();
+/// String::truncate(n): panics if n is not on a char boundary - excluded by requiring ASCII content
+pub assume_specification [String::truncate] (s: &mut String, n: usize)
+    requires all_ascii(str_bytes(old(s)@))
+    ensures str_bytes(final(s)@) == (if n < str_bytes(old(s)@).len() { str_bytes(old(s)@).subrange(0, n as int) } else { str_bytes(old(s)@) });
